@@ -85,3 +85,12 @@ chk("C18", "fault injection at every crash point of a generated update, differen
     "attempts in a row before the repeat.",
     TRUST + " Linear knobs (incremental, not idempotent by design) and in-place observed assignments are outside the check.",
     "DESIGN.md 4/C18", category="fault_enumeration")
+
+chk("C07", "exhaustive small-scope enumeration plus generated update/lookup scripts against a linear-scan reference",
+    "All 364 index columns over a 3-name alphabet up to length 5 x every row form (present / absent names, positive / negative / "
+    "out-of-range counts, offsets landing inside, string and tuple spelling) through table[col,row], rows.get_index and table // row, "
+    "before and after every single-cell assignment to the index column (by position and by name); plus generated scripts interleaving "
+    "whole-column assignment (item / attribute), cell assignment, write-by-name, new and deleted columns with lookups and label checks "
+    "(get_index_unique labels resolve to their own row and are what show() prints). Oracle: linear scan of the model's current names.",
+    "trusted: CPython 3.12, numpy, Hypothesis; the harness' linear-scan reference. Exhaustive only for the stated small scope; scripts "
+    "are bounded search (<= 8 rows, <= 25 steps).", "DESIGN.md 4/C07", engine="hypothesis + enumeration")
